@@ -1,6 +1,7 @@
 package main
 
 import (
+	"bytes"
 	"fmt"
 	"reflect"
 	"strings"
@@ -138,6 +139,52 @@ func runC13(c *Ctx) {
 			c.Fail(Replay{Kind: "events", Key: c13Key(es, rej, want), Input: map[string]string{"events": w}, Expect: fmt.Sprintf("first-invalid=%d", want), Got: fmt.Sprintf("rejected-at=%d", rej)})
 		}
 	}
+	// pending forward references: 1..3 references to one id, each in value or map-key position, in
+	// every order, then the marker on an object of every class (keyable / not keyable), then more
+	// references; the requirement "keyable" must be the union over all pending references
+	objs := [][]Ev{{{K: "pi", N: 7}}, {{K: "sa", A: events.ArrayTypeString, Data: []byte("s")}}, {{K: "l"}, {K: "e"}}, {{K: "m"}, {K: "e"}},
+		{{K: "fl", F: 1.5}}, {{K: "null"}}, {{K: "b", B: true}}, {{K: "uid", Data: []byte("0123456789abcdef")}}, {{K: "ni", N: 3}}}
+	refAt := func(pos int) []Ev {
+		switch pos {
+		case 0: // list element
+			return []Ev{{K: "ref", Data: []byte("x")}}
+		case 1: // map key
+			return []Ev{{K: "m"}, {K: "ref", Data: []byte("x")}, {K: "pi", N: 1}, {K: "e"}}
+		default: // map value
+			return []Ev{{K: "m"}, {K: "pi", N: 1}, {K: "ref", Data: []byte("x")}, {K: "e"}}
+		}
+	}
+	for nrefs := 1; nrefs <= 3; nrefs++ {
+		for combo := 0; combo < pow3(nrefs); combo++ {
+			for oi, obj := range objs {
+				for after := 0; after < 3; after++ {
+					if c.Tier == "quick" && nrefs == 3 && (combo+oi+after)%3 != int(c.Seed%3) {
+						continue
+					}
+					es := []Ev{{K: "bd"}, {K: "v", N: 0}, {K: "l"}}
+					x := combo
+					for k := 0; k < nrefs; k++ {
+						es = append(es, refAt(x%3)...)
+						x /= 3
+					}
+					es = append(es, Ev{K: "mk", Data: []byte("x")})
+					es = append(es, obj...)
+					if after > 0 {
+						es = append(es, refAt(after)...)
+					}
+					es = append(es, Ev{K: "e"}, Ev{K: "ed"})
+					rej, _ := c.addRulesCase(rc, es)
+					want, _ := wfCheck(es, rc.MaxArray, int(rc.MaxIdent))
+					s := evsString(es)
+					c.Count(s, true)
+					c.Dist(fmt.Sprintf("pending-refs/valid=%v", want < 0))
+					if rej != want {
+						c.Fail(Replay{Kind: "events", Key: c13Key(es, rej, want), Input: map[string]string{"events": s}, Expect: fmt.Sprintf("first-invalid=%d", want), Got: fmt.Sprintf("rejected-at=%d", rej)})
+					}
+				}
+			}
+		}
+	}
 	n := c.Pick(500, 12000)
 	for i := 0; i < n; i++ {
 		es := c13Walk(c, alpha, 10+c.Rng.Intn(30))
@@ -169,13 +216,22 @@ func runC13(c *Ctx) {
 			{"c0 [&a:" + val + " {\"x\"=$a}]", []int{0}, [][]int{{1, -1}}, nil},
 			{"c0 [{\"x\"=$a} &a:" + val + "]", []int{1}, [][]int{{0, -1}}, nil},
 		} {
-			c.Count("build|"+bc.doc, true)
-			ok, detail := c13CheckBuild(bc.doc, bc.marked, bc.refs)
-			c.Dist(fmt.Sprintf("build/ok=%v", ok))
-			if !ok {
-				shape := strings.NewReplacer(val, "V").Replace(bc.doc)
-				c.Fail(Replay{Kind: "build", Key: "C13/build/" + shape, Input: map[string]string{"doc": bc.doc, "marked": fmt.Sprint(bc.marked), "refs": fmt.Sprint(bc.refs)},
-					Expect: "every reference position holds the marked value", Got: detail})
+			for _, id := range []string{"a", "aa", "marker_with_a_longer_name"} {
+				doc := strings.NewReplacer("&a:", "&"+id+":", "$a", "$"+id).Replace(bc.doc)
+				for _, format := range []string{"cte", "cbe"} {
+					c.Count("build|"+format+"|"+doc, true)
+					ok, detail := c13CheckBuildFmt(doc, format, bc.marked, bc.refs)
+					c.Dist(fmt.Sprintf("build/%s/ok=%v", format, ok))
+					if !ok {
+						shape := strings.NewReplacer(val, "V", id, "a").Replace(doc)
+						key := "C13/build/" + shape
+						if format == "cbe" {
+							key = "C13/build-cbe/" + shape
+						}
+						c.Fail(Replay{Kind: "build", Key: key, Input: map[string]string{"doc": doc, "format": format, "marked": fmt.Sprint(bc.marked), "refs": fmt.Sprint(bc.refs)},
+							Expect: "every reference position holds the marked value", Got: detail})
+					}
+				}
 			}
 		}
 	}
@@ -203,13 +259,39 @@ func c13Get(v interface{}, path []int) (interface{}, bool) {
 	return v, true
 }
 
+func pow3(n int) int {
+	r := 1
+	for i := 0; i < n; i++ {
+		r *= 3
+	}
+	return r
+}
+
 func c13CheckBuild(doc string, marked []int, refs [][]int) (ok bool, detail string) {
+	return c13CheckBuildFmt(doc, "cte", marked, refs)
+}
+
+// c13CheckBuildFmt unmarshals the CTE document, or (format "cbe") the CBE document obtained by
+// sending the CTE decoder's events through the CBE encoder, and checks the reference positions.
+func c13CheckBuildFmt(doc, format string, marked []int, refs [][]int) (ok bool, detail string) {
 	defer func() {
 		if r := recover(); r != nil {
 			ok, detail = false, fmt.Sprint("panic: ", r)
 		}
 	}()
-	v, err := ce.UnmarshalFromCTEDocument([]byte(doc), nil, configuration.New())
+	var v interface{}
+	var err error
+	if format == "cbe" {
+		var buf bytes.Buffer
+		enc := ce.NewCBEEncoder(configuration.New())
+		enc.PrepareToEncode(&buf)
+		if err = ce.NewCTEDecoder(configuration.New()).DecodeDocument([]byte(doc), enc); err != nil {
+			return false, "conversion to CBE failed: " + err.Error()
+		}
+		v, err = ce.UnmarshalFromCBEDocument(buf.Bytes(), nil, configuration.New())
+	} else {
+		v, err = ce.UnmarshalFromCTEDocument([]byte(doc), nil, configuration.New())
+	}
 	if err != nil {
 		return false, "error: " + err.Error()
 	}
@@ -243,7 +325,11 @@ func replayC13(r *Replay) (bool, string) {
 		for _, part := range strings.Split(strings.Trim(r.Input["refs"], "[]"), "] [") {
 			refs = append(refs, parseInts(part))
 		}
-		return c13CheckBuild(r.Input["doc"], marked, refs)
+		format := r.Input["format"]
+		if format == "" {
+			format = "cte"
+		}
+		return c13CheckBuildFmt(r.Input["doc"], format, marked, refs)
 	}
 	es, err := parseEvs(r.Input["events"])
 	if err != nil {
